@@ -18,7 +18,13 @@ def run(ctx):
         "is proved, loop-free and therefore complete for all Python arguments: status stays set exactly for "
         "representable ints of the declared width and signedness (bit-precise casts), the stored value equals "
         "the argument, rejection leaves TypeError pending and acceptance leaves nothing pending; float values: "
-        "stored as the float32 rounding, ints via (float), other types TypeError. The Python entry points' "
+        "stored as the float32 rounding, ints via (float), other types TypeError. Engine P: the converters of "
+        "_datatypes.py that every pure-Python family uses as _to_key / _to_value are under contract for ALL Python "
+        "objects (described by ghost predicates: is an int / has __index__ / has __int__ / is bytes / has default "
+        "comparison): I, U, L, Q return a plain int in the declared range equal to the argument's integer value and "
+        "raise TypeError - nothing else - otherwise; f / s accept exactly 2- / 6-byte strings; O rejects exactly "
+        "objects with default comparison (struct / operator.index / int trusted: pyvc/dtypes.py; float types not "
+        "under contract). The Python entry points' "
         "convert-before-mutate and absence-on-unconvertible-lookup clauses are Engine P obligations on "
         "_base.py. The boundary grid through every entry point of all families is the bounded stand-in conv_rt."
         % ", ".join(fams))
